@@ -1,12 +1,16 @@
 (** C17 — move, position and game text formats round-trip and reject garbage safely.
     Only statements; every proof is [exact <lemma>].
     Model: TextIO/MoveText.v (moveToUCIString, uciStringToMove, moveToString, stringToMove; generic in
-    the legal move list), TextIO/MoveTextP.v (instantiated with the FIDE Spec), TextIO/UciLine.v,
-    Chess/Fen.v (readFEN/toFEN, by the position agent); tied to lib/texellib/textio.cpp and
-    app/texel/uciprotocol.cpp by the correspondence check (props/c17.py). *)
+    the legal move list and in the check / mate oracles), TextIO/MoveTextP.v (instantiated with the
+    FIDE Spec), TextIO/UciLine.v (UCI tokenizer and `position` command), TextIO/FenIx.v (readFEN with
+    the C++'s index arithmetic), Chess/Fen.v (readFEN / toFEN, by the position agent); tied to
+    lib/texellib/textio.cpp and app/texel/uciprotocol.cpp by the correspondence check (props/c17.py).
+    NOT covered by any theorem here: the PGN scanner / parser / writer (gametree.cpp) and the UCI
+    commands other than `position` -- tested only. *)
 From Coq Require Import ZArith NArith List Bool.
-From Texel Require Import Chess.Types Chess.Position Chess.Fen Chess.Spec
-  TextIO.MoveText TextIO.MoveTextP TextIO.UciLine TextIO.UciProofs.
+From Texel Require Import Chess.Types Chess.Position Chess.Fen Chess.PositionInst Chess.Spec
+  TextIO.MoveText TextIO.MoveTextP TextIO.UciLine TextIO.FenIx TextIO.UciProofs TextIO.ParseSweep
+  TextIO.MoveTextFacts TextIO.MoveTextProofs TextIO.MoveTextTheorems TextIO.FenIxProofs.
 Import ListNotations.
 Local Open Scope N_scope.
 
@@ -15,3 +19,79 @@ Local Open Scope N_scope.
 Theorem C17_uci_roundtrip : forall m, uciWellFormed m -> uciStringToMove (moveToUCIString m) = m.
 Proof. exact uci_roundtrip. Qed.
 Print Assumptions C17_uci_roundtrip.
+
+(** what the scan of stringToMove makes of EVERY string moveToString can print (all piece letters,
+    all four kinds of source-square information, both separators, all target squares, all
+    promotion letters, both sides): the MoveInfo it builds is exactly the printed information *)
+Theorem C17_parse_printed_shapes : forall wtm d fx fy sep x2 y2,
+  disCase d fx fy -> In sep seps -> x2 < 8 -> y2 < 8 ->
+  (forall L, In L pieceLetters ->
+     parseMoveInfo wtm (shapeStr [L] d sep x2 y2 []) =
+     Some (mkInfo (charToPiece wtm L) fx fy (Z.of_N x2) (Z.of_N y2) (Z.of_N EMPTY), strEqb sep [ch_x])) /\
+  (forall pr, In pr promLetters ->
+     parseMoveInfo wtm (shapeStr [] d sep x2 y2 pr) =
+     Some (mkInfo (pawnPieceZ wtm fx fy) fx fy (Z.of_N x2) (Z.of_N y2) (promZ wtm pr), strEqb sep [ch_x])).
+Proof.
+  exact (fun wtm d fx fy sep x2 y2 Hd Hs Hx Hy =>
+           conj (fun L HL => parse_piece_shape wtm L d fx fy sep x2 y2 HL Hd Hs Hx Hy)
+                (fun pr Hp => parse_pawn_shape wtm d fx fy sep pr x2 y2 Hd Hs Hp Hx Hy)).
+Qed.
+Print Assumptions C17_parse_printed_shapes.
+
+(** Long form: for ANY duplicate-free list of moves of the side to move that are on the board and
+    promote only pawns (to Q/R/B/N of their colour), any board and any check / mate oracle, the long
+    form of a member parses back to that member. *)
+Theorem C17_long_roundtrip : forall p legal gc mate,
+  legalShapeLong p legal -> forall m, In m legal ->
+  stringToMove p legal (moveToString p legal gc mate m true) = m.
+Proof. exact long_roundtrip. Qed.
+Print Assumptions C17_long_roundtrip.
+
+(** Short form: additionally no empty move in the list and pawn moves have the geometry of chess
+    (straight = no capture, one square or two over an empty square; otherwise a capture one rank
+    forward).  Then the short form with its minimal disambiguation (none / file / rank / both,
+    computed from the counts over the list) parses back to the move it was printed from. *)
+Theorem C17_short_roundtrip : forall p legal gc mate,
+  legalShape p legal -> forall m, In m legal ->
+  stringToMove p legal (moveToString p legal gc mate m false) = m.
+Proof. exact short_roundtrip. Qed.
+Print Assumptions C17_short_roundtrip.
+
+(** ... hence no two moves of such a list share a short form. *)
+Theorem C17_short_injective : forall p legal gc mate,
+  legalShape p legal -> forall a b, In a legal -> In b legal ->
+  moveToString p legal gc mate a false = moveToString p legal gc mate b false -> a = b.
+Proof. exact short_injective. Qed.
+Print Assumptions C17_short_injective.
+
+(** The same at the level of a position, with the legal moves and the check / mate verdicts of the
+    FIDE specification: the hypothesis is ONE executable test of the position ([legalShapeb]; the
+    check evaluates it on every generated position and records the count). *)
+Theorem C17_position_roundtrips : forall p, legalShapeb p (legalOf p) = true ->
+  (forall m, In m (legalOf p) -> stringToMoveP p (moveToStringP p m false) = m) /\
+  (forall m, In m (legalOf p) -> stringToMoveP p (moveToStringP p m true) = m) /\
+  (forall a b, In a (legalOf p) -> In b (legalOf p) -> moveToStringP p a false = moveToStringP p b false -> a = b).
+Proof.
+  exact (fun p H => conj (short_roundtrip_P p H) (conj (long_roundtrip_P p H) (short_injective_P p H))).
+Qed.
+Print Assumptions C17_position_roundtrips.
+
+(** FEN reader: the index model of readFEN (TextIO/FenIx.v: every fen[i], fen.substr(i, n) and board
+    access at a computed index is an explicit range check, an access outside the string or outside the
+    64 squares would return [IxOut site]) computes, for EVERY byte string and every key table, exactly
+    the structural model [Fen.readFEN] with its error constructors -- so no out-of-range access is
+    reachable and the fuel (length + 1 per loop) always suffices. *)
+Theorem C17_fen_total : forall zk s,
+  readFENix zk s = inject (readFEN zk s) /\                    (* inject: FenOk p => IxOk p, FenErr e => IxErr e *)
+  (forall site, readFENix zk s <> IxOut site) /\ readFENix zk s <> IxFuel.
+Proof. exact (fun zk s => conj (readFENix_total zk s) (readFENix_in_range zk s)). Qed.
+Print Assumptions C17_fen_total.
+
+(** * Statements not proved *)
+
+(** every position the FEN reader accepts satisfies the hypothesis with the Spec's legal moves
+    (would turn [C17_position_roundtrips] into [WF p -> In m (legal p) -> ...] of DESIGN.md);
+    evaluated on every generated position by the check *)
+Definition C17_legal_shape_statement : Prop :=
+  forall s p, readFEN zk0 s = FenOk p -> legalShapeb p (legalOf p) = true.
+
